@@ -1552,6 +1552,12 @@ impl Tree {
         leaf_order.sort_by(|a, b| self.get(a).unwrap().name.cmp(&self.get(b).unwrap().name));
 
         let n = self.n_leaves();
+        if n == 0 {
+            return Err(TreeError::IsEmpty);
+        }
+        if leaf_order.iter().any(|i| self.get(i).unwrap().name.is_none()) {
+            return Err(TreeError::UnnamedLeaves);
+        }
         let mut pairwise_vec = vec![NaiveSum::zero(); n * (n - 1) / 2];
 
         let leaf_idx_to_leaf_order = self
